@@ -9,7 +9,7 @@ import gc, random, warnings, operator
 from values import Interner, dtype_wire, err_class, storage
 
 NSLOTS = 6
-VALS = [0, 1, 2, None, "a", 1.5, True]
+VALS = [0, 1, 2, None, "a", 1.5, True, 1.0]
 DATES = ["D:2020-01-01", "D:2020-01-02", "D:1999-12-31"]
 DATETIMES = ["T:2020-01-01T10:30:00", "T:2021-05-06T00:00:00"]
 
